@@ -38,8 +38,13 @@ def contracts_valid(repo):
 
 
 class Ctx:
-    def __init__(self, tier):
+    def __init__(self, tier, profile=""):
         self.tier = tier
+        # "" = the ordinary (debug-assertions on) build; "nd" = the same configurations compiled
+        # without debug assertions (bin/facts <cfg>-nd), analysed only when their MIR differs
+        self.profile = profile
+        self._sfx = "-nd" if profile == "nd" else ""
+        self._used = set()
         self._facts_dir = None
         self._facts = {}
         self._layouts = {}
@@ -51,7 +56,7 @@ class Ctx:
         return list(thorough if self.tier == "thorough" else quick)
 
     def facts_dir(self, configs):
-        r = subprocess.run([os.path.join(VERIF, "bin", "facts")] + list(configs), stdout=subprocess.PIPE, stderr=subprocess.PIPE, text=True)
+        r = subprocess.run([os.path.join(VERIF, "bin", "facts")] + [c + self._sfx for c in configs], stdout=subprocess.PIPE, stderr=subprocess.PIPE, text=True)
         if r.returncode != 0:
             sys.stderr.write(r.stderr)
             raise SystemExit("facts: cannot build /repo for configurations %s" % (configs,))
@@ -61,7 +66,8 @@ class Ctx:
         key = (cfg, crate)
         if key not in self._facts:
             d = self.facts_dir([cfg])
-            p = os.path.join(d, cfg, crate + ".json")
+            self._used.add((cfg, crate))
+            p = os.path.join(d, cfg + self._sfx, crate + ".json")
             if not os.path.exists(p) or os.path.getsize(p) == 0:
                 raise SystemExit("facts file missing: " + p)
             self._facts[key] = Facts(p)
@@ -69,6 +75,27 @@ class Ctx:
 
     def prefetch(self, cfgs):
         self.facts_dir(cfgs)
+
+    def profile_dependent(self):
+        """the analysed (configuration, crate) pairs whose MIR differs when debug assertions are
+        compiled out (`debug_assert!` with an effect, `cfg(debug_assertions)` code): the facts of
+        both builds are compared byte for byte"""
+        import filecmp
+        out = []
+        used = sorted(self._used)
+        if not used or self._sfx:
+            return out
+        cfgs = sorted(set(c for c, _ in used))
+        r = subprocess.run([os.path.join(VERIF, "bin", "facts")] + cfgs + [c + "-nd" for c in cfgs], stdout=subprocess.PIPE, stderr=subprocess.PIPE, text=True)
+        if r.returncode != 0:
+            sys.stderr.write(r.stderr)
+            raise SystemExit("facts: cannot build /repo without debug assertions for %s" % (cfgs,))
+        d = r.stdout.strip().splitlines()[-1]
+        for cfg, crate in used:
+            a, b = os.path.join(d, cfg, crate + ".json"), os.path.join(d, cfg + "-nd", crate + ".json")
+            if not (os.path.exists(b) and filecmp.cmp(a, b, shallow=False)):
+                out.append((cfg, crate))
+        return out
 
     def sentmodel(self, cfg):
         if not hasattr(self, "_sm"):
